@@ -5,7 +5,7 @@ import json, os, re, shutil, time
 from z3 import Solver, And, Or, Not, sat, unsat, is_true
 from vlib.common import rl, Inconclusive, scratch_dir, log
 from . import sem
-from .sem import Enc, NotEncodable, Unresolved, bag_eq, bag_subset, card, seq_eq_vals, model_tables, model_rel
+from .sem import Enc, NotEncodable, Unresolved, EnginePanics, bag_eq, bag_subset, card, seq_eq_vals, model_tables, model_rel
 from .sexp import parse, show, lst
 from .realize import sql_lit
 
@@ -133,6 +133,19 @@ def _solve(task, B, O, K, res):
     except NotEncodable as ex:
         res.update(verdict='skip', why='not encodable: %s' % ex)
         return res
+    except EnginePanics as ex:
+        # whatever the data (as long as the scanned table is not empty) the optimized plan makes the engine panic
+        s = Solver()
+        s.add(enc.cons + enc.strlit_constraints())
+        for t, rows in enc.tabs.items():
+            s.add(rows[0][0])
+        if s.check() != sat:
+            res.update(verdict='vacuous')
+            return res
+        m = s.model()
+        res.update(verdict='sat', mode='engine-panic', db=model_tables(m, enc), rows_bound=model_rel(m, RB), rows_opt=None,
+                   strmap=enc.assign_strlits(), broken_req=[str(ex)])
+        return res
     except Unresolved as ex:
         res.update(verdict='dangling', why='optimized plan references a column its input does not produce: %s' % ex)
         return res
@@ -198,9 +211,10 @@ def str_image(v, strmap):
     return base + '!%03d' % (v + 500)
 
 
-def table_sql(names, tid, db_rows, strmap):
+def table_sql(names, tid, db_rows, strmap, single_insert=False):
     name, cols = names[tid]
     out = []
+    tuples = []
     for row in db_rows:
         vals = []
         for c, v in zip([c for c in cols if type_of(c['type'])], row):
@@ -211,18 +225,21 @@ def table_sql(names, tid, db_rows, strmap):
             else:
                 vals.append(sql_lit(v))
         enc_cols = [c['name'] for c in cols if type_of(c['type'])]
+        tuples.append('(%s)' % ', '.join(vals))
         out.append('insert into %s(%s) values (%s)' % (name, ', '.join(enc_cols), ', '.join(vals)))
+    if single_insert and tuples:
+        return ['insert into %s(%s) values %s' % (name, ', '.join(enc_cols), ', '.join(tuples))]
     return out
 
 
-def run_sql(engine, stmts, tries=1):
+def run_sql(engine, stmts, tries=1, block=64, rowset=256):
     runs = []
     for _ in range(tries):
         d = None
         inp = {'engine': engine, 'stmts': stmts}
         if engine == 'disk':
             d = scratch_dir('replaydb')
-            inp.update(dir=d, block=64, rowset=256)
+            inp.update(dir=d, block=block, rowset=rowset)
         out, rc, err = rl('sql', inp, timeout=120)
         if d:
             shutil.rmtree(d, ignore_errors=True)
@@ -239,17 +256,17 @@ def stats_stmts(cfgobj):
     return ['set mock_rowcount_zz_verif_dummy = 1']
 
 
-def replay_sql(ddl, names, res, cfgname, ordered_cols=None, tries=1, cfgobj=None):
+def replay_sql(ddl, names, res, cfgname, ordered_cols=None, tries=1, cfgobj=None, single_insert=False):
     """Build the model database, run the query with the optimizer off and on. Returns dict(reproduced, how)."""
     ins = []
     for tid, rows in sorted(res['db'].items()):
-        ins += table_sql(names, tid, rows, res.get('strmap') or {})
+        ins += table_sql(names, tid, rows, res.get('strmap') or {}, single_insert)
     engine = 'disk' if cfgname.startswith('disk') else 'mem'
     stmts = list(ddl) + ['create table zz_verif_dummy(z int)'] + ins + stats_stmts(cfgobj) + ['pragma disable_optimizer', res['sql'], 'pragma enable_optimizer', res['sql']]
     how = {'engine': engine, 'stmts': stmts}
     any_diff = False
     last = None
-    for out, rc, err in run_sql(engine, stmts, tries):
+    for out, rc, err in run_sql(engine, stmts, tries, block=4096 if single_insert else 64, rowset=(1 << 20) if single_insert else 256):
         qs = [o for o in out if o.get('sql') == res['sql']]
         if len(qs) != 2:
             how['note'] = 'replay did not complete: rc=%s %s' % (rc, err[-300:])
